@@ -3885,8 +3885,8 @@ func (p *Posix) headObject(ctx context.Context, input *s3.HeadObjectInput) (*s3.
 			return nil, fmt.Errorf("get obj versionId: %w", err)
 		}
 		if errors.Is(err, meta.ErrNoSuchKey) {
-			bucket = filepath.Join(p.versioningDir, bucket)
-			object = filepath.Join(genObjVersionKey(object), versionId)
+			// a current version without a version id is the null version
+			vId = []byte(nullVersionId)
 		}
 
 		if string(vId) != versionId {
